@@ -256,7 +256,7 @@ int main(int argc, char **argv)
    g_mode = opus_custom_mode_create(48000, 960, NULL); g_arch = opus_select_arch();
    /* mdct: every shift x every stride the decoder can pass (1, or M = 2^LM for short blocks) — and the other strides too */
    for (shift = 0; shift <= 3; shift++) for (k = 0; k < 4; k++) case_mdct(shift, STR[k], g_mode->overlap, &r, k == 0 || k == 3);
-   for (i = 0; i < (level ? 24 : 4); i++) case_mdct(vrange(&r, 0, 3), vrange(&r, 0, 9), 2 * vrange(&r, 0, 60), &r, i & 1);   /* other even overlaps <= 120, odd strides, stride 0 */
+   for (i = 0; i < (level ? 200 : 4); i++) case_mdct(vrange(&r, 0, 3), vrange(&r, 0, 9), 2 * vrange(&r, 0, 60), &r, i & 1);   /* other even overlaps <= 120, odd strides, stride 0 */
    /* denormalise_bands: start x end x M x downsample x silence (quick: start in {0, 1, 17, 20, 21}; thorough: all) */
    for (start = 0; start <= 21; start++) {
       if (!level && !(start == 0 || start == 1 || start == 17 || start == 20 || start == 21)) continue;
@@ -270,7 +270,7 @@ int main(int argc, char **argv)
    case_psearch(DECODE_BUFFER_SIZE - PLC_PITCH_LAG_MAX, PLC_PITCH_LAG_MAX - PLC_PITCH_LAG_MIN, 0, &r);
    case_psearch(DECODE_BUFFER_SIZE - PLC_PITCH_LAG_MAX, PLC_PITCH_LAG_MAX - PLC_PITCH_LAG_MIN, 1, &r);
    case_psearch(960, 979, 0, &r); case_psearch(12, 4, 0, &r); case_psearch(15, 7, 0, &r); case_psearch(13, 5, 1, &r);
-   for (i = 0; i < (level ? 120 : 24); i++) case_psearch(vrange(&r, 12, i % 3 ? 200 : 1400), vrange(&r, 4, i % 3 ? 100 : 700), vchance(&r, 15), &r);
+   for (i = 0; i < (level ? 600 : 24); i++) case_psearch(vrange(&r, 12, i % 3 ? 200 : 1400), vrange(&r, 4, i % 3 ? 100 : 700), vchance(&r, 15), &r);
    printf("# celtcallees2 seed=%s level=%d cases=%ld witnesses=%ld\n", argv[2], level, g_cases, g_wit);
    return 0;
 }
